@@ -172,7 +172,7 @@ import "strings"
 //@   at after "buf.WriteString(s)": assert [C15] forall k int :: {s[k]} 0 <= k && k < len(s) ==> pclass(s[k]) == clOther && !posixSpecial(s[k])
 //@   at after "buf.WriteString(s)": assume forall k int :: {gtok[k]} 0 <= k && k < len(s) ==> gtok[k] == s[k]
 //@   at after "buf.WriteString(s)": ghost gn = len(s)
-//@   at after "buf.WriteString(s)": ghost gm = 1
+//@   at after "buf.WriteString(s)": ghost gm = ite(len(s) > 0, 1, gm)
 //@   loop 1: invariant idx: gn == it1 && !emitted && !bare && !ge && buf.n >= old(buf.n)
 //@   loop 1: invariant mode: (inq ==> gm == 2) && (!inq ==> (gm == 1 || (it1 == 0 && gm == 0)))
 //@   loop 1: invariant token: forall k int :: {gtok[k]} 0 <= k && k < it1 ==> gtok[k] == s[k]
